@@ -10,6 +10,15 @@ p = subprocess.run([os.path.join(V, "tools/seed_eval.sh"), pid, d, tier], captur
 out = [l for l in p.stdout.splitlines() if not l.startswith("WARNING")]
 viol = [l for l in out if l.startswith("VIOLATION")]
 mp = os.path.join(d, "meta.json")
+if any("PATCH DOES NOT APPLY" in l or "EVAL WORKTREE CHECKOUT FAILED" in l for l in out):
+    try:
+        m0 = json.load(open(mp))
+    except Exception:
+        m0 = {}
+    m0["regression_note"] = "the patch no longer applies to /repo HEAD (later fix: commits touched the same lines); last recorded outcome kept"
+    json.dump(m0, open(mp, "w"), indent=1)
+    print(d, "patch no longer applies; outcome kept")
+    sys.exit(0)
 try:
     m = json.load(open(mp))
 except Exception:
